@@ -1,7 +1,7 @@
 (* Properties_C05.v — property C05: tagged varints sort bytewise in numeric
    order.  Nothing but statements closed by `exact`, each followed by
    Print Assumptions. *)
-Require Import VV.Base VV.Tagged VV.TaggedSpecProofs.
+Require Import VV.Base VV.Tagged VV.TaggedSpecProofs VV.TaggedWriters.
 Local Open Scope N_scope.
 
 (* memcmp order of two encodings = numeric order, all pairs of 64-bit values *)
@@ -32,6 +32,38 @@ Theorem C05_tagged_tuple_order : forall xs ys,
   lex (tagged_key xs) (tagged_key ys) = lex_list xs ys.
 Proof. exact tagged_tuple_order. Qed.
 Print Assumptions C05_tagged_tuple_order.
+
+(* keys written by the other writers of the family — the 32-bit writer, the
+   fixed-width writer and the Quick macro at the value's natural width — are
+   the same bytes as Put64's, so they sort with Put64 keys *)
+Theorem C05_tagged_writers_order : forall a b,
+  a < 18446744073709551616 -> b < 18446744073709551616 ->
+  (a < 4294967296 -> lex (tagged_put32 a) (tagged_put64 b) = (a ?= b)) /\
+  (forall k, tagged_put64_fixed a (tagged_len a) = Some k -> lex k (tagged_put64 b) = (a ?= b)) /\
+  (forall k, tagged_put64_fixed_quick a (tagged_len a) = Some k -> lex k (tagged_put64 b) = (a ?= b)).
+Proof. exact tagged_writers_order. Qed.
+Print Assumptions C05_tagged_writers_order.
+
+(* and so is the key left in a slot by the in-place add helpers, whenever they
+   store (no overflow; grow allowed or the sum fits): the first `width` bytes
+   are exactly Put64 of the sum *)
+Theorem C05_tagged_add_key_order : forall p add force b,
+  b < 18446744073709551616 ->
+  in_s64 (to_s64 (snd (tagged_get64 p)) + add) = true ->
+  (force = true \/
+   tagged_len (of_s64 (to_s64 (snd (tagged_get64 p)) + add)) <= fst (tagged_get64 p)) ->
+  let nv := of_s64 (to_s64 (snd (tagged_get64 p)) + add) in
+  let r := tagged_add p add force in
+  firstn (N.to_nat (fst r)) (snd r) = tagged_put64 nv /\
+  lex (firstn (N.to_nat (fst r)) (snd r)) (tagged_put64 b) = (nv ?= b).
+Proof. exact tagged_add_key_order. Qed.
+Print Assumptions C05_tagged_add_key_order.
+
+Example C05_writers_example :
+  tagged_put64_fixed 16777221 (tagged_len 16777221) = Some [251; 1; 0; 0; 5] /\
+  snd (tagged_add [251; 1; 0; 0; 5] (-10) true) = [250; 255; 255; 251; 5] /\
+  lex [250; 255; 255; 251] (tagged_put64 16777216) = Lt.
+Proof. vm_compute. repeat split; reflexivity. Qed.
 
 (* non-vacuity: concrete instances across a length boundary *)
 Example C05_example :
